@@ -30,12 +30,15 @@ THEOREMS = [
     "Optyx.Props.C17.hessFast_eq_general",
     "Optyx.Props.C17.hess_second_partial",
     "Optyx.Props.C17.hess_second_partial_partial",
+    "Optyx.Props.C17.hess_symmetric",
+    "Optyx.Props.C17.compileHessian_entries",
+    "Optyx.Props.C17.compileHessian_true_second_partial",
 ]
 ASSUMPTIONS = [
     "second derivatives are stated relative to Py.grad (∂/∂V_j of the expression Py.grad V_i e); turning them into the "
     "true mixed partials needs C02 twice (hess_second_partial, stated, see the Lean file for what is proved)",
     "V has pairwise distinct names and contains every variable; vector elements are distinct; x has len(V) entries",
-    "equality of the mirrored lower triangle with the true mixed partial is Schwarz' theorem (not proved here; tested)",
+    "equality of the mirrored lower triangle with the derivative in the other order is proved (hess_symmetric: C² on two-variable slices + Mathlib's Schwarz theorem)",
     "float rounding is not modelled",
 ]
 
